@@ -712,6 +712,8 @@ def import_plugins(folder_to_scan_for_plugins):
         loader = importlib.machinery.SourceFileLoader(module_name_to_import, module_path_to_import)
         spec = importlib.util.spec_from_loader(module_name_to_import, loader)
         loaded_module = importlib.util.module_from_spec(spec)
+        # Register the module like a regular import does; code such as dataclasses looks it up while it is executed.
+        sys.modules[module_name_to_import] = loaded_module
         loader.exec_module(loaded_module)
         # Keep a reference to the module. Otherwise its classes could be garbage collected any time because
         # ``__subclasses__()``, which is used to find them, only holds weak references.
